@@ -72,6 +72,7 @@ class Knobs:
         self.jdk_bad = 0.01
         self.jdk_negated = 0.03
         self.same_group = 0.3      # the root (a BOM) has the group of its parent and does not state it
+        self.versionless_mgmt = 0.12   # managed entries that manage scope/exclusions only (no <version>)
         # per entry
         self.key_placeholder = 0.03
         self.prop_activation = 0.05
@@ -158,6 +159,22 @@ class LineageGen:
             out.append(d)
         return out
 
+    def gen_mgmt(self, names, n, avoid=(), root_world=True):
+        """a management list: entries carry a version, except that in lineages flagged versionless_mgmt an entry may
+        manage scope and exclusions only (no <version>): Maven keeps such an entry, it shadows an ancestor's entry for
+        the same key and its scope/exclusions are injected (seed C15-n)"""
+        out = self.gen_list(names, n, avoid, managed_ok=False, root_world=root_world)
+        if self.flag("versionless_mgmt"):
+            r = self.rng
+            for d in out:
+                if r.random() < 0.4:
+                    d[2] = b""
+                    if d[5] == b"":
+                        d[5] = r.choice([b"runtime", b"test", b"provided", b"compile"])
+                    if not d[7] and r.random() < 0.6:
+                        d[7] = [[r.choice(GROUPS), r.choice(ARTIFACTS)]]
+        return out
+
     def gen_props(self, names, n):
         """properties of one POM: literal values or references to lower-numbered names (acyclic);
         in lineages flagged unresolved also references that may close a cycle"""
@@ -242,7 +259,7 @@ class LineageGen:
             avoid_m = [ident(d) for d in own_mgmt] + [ident(d) for p in out for d in p[4]]
             props = self.gen_props(names, r.choice([0, 1, 1, 2]))
             deps = self.gen_list(names, r.choice([0, 1, 1, 2]), avoid_d, managed_ok=root_world, root_world=root_world)
-            mgmt = self.gen_list(names, r.choice([0, 0, 1, 2]), avoid_m, managed_ok=False, root_world=root_world)
+            mgmt = self.gen_mgmt(names, r.choice([0, 0, 1, 2]), avoid_m, root_world=root_world)
             if own_deps and self.flag("profile_same_key") and r.random() < 0.5:
                 d = list(r.choice(own_deps))
                 d[2] = r.choice(VERSIONS)
@@ -268,7 +285,7 @@ class LineageGen:
                 omit_group=False):
         r = self.rng
         deps = self.gen_list(names, ndeps, managed_ok=root_world, root_world=root_world)
-        mgmt = self.gen_list(names, nmgmt, managed_ok=False, root_world=root_world)
+        mgmt = self.gen_mgmt(names, nmgmt, root_world=root_world)
         props = self.gen_props(names, nprops)
         for imp in imports:
             if imp[2].startswith(b"${"):
@@ -318,7 +335,7 @@ class LineageGen:
         self.f = {name: r.random() < getattr(k, name) for name in
                   ("dup_in_list", "profile_same_key", "bom_two_versions", "bom_parent_builtin", "excl_placeholder",
                    "jdk_risky", "mgmt_dup", "unresolved", "unmanaged", "missing_bom", "bad_packaging", "jdk_bad",
-                   "empty_props", "jdk_negated", "same_group")}
+                   "empty_props", "jdk_negated", "same_group", "versionless_mgmt")}
         env = list(r.choice(self.envs))
         names = list(PROP_NAMES)
         if r.random() < 0.25:
